@@ -586,6 +586,16 @@ class ExperimentPackage(StorageStructurePathResolver):
                 # VV: Do not create anything for a manifest with targets that end up outside targetPath
                 experiment.model.frontends.flowir.Manifest(manifest, validate=True)
 
+                # VV: The package file is stored in the conf folder of the instance. If `conf` (or the file itself)
+                # were a link, the file would be written through the link, i.e. into the folder the link points to
+                package_file = os.path.join("conf", "dsl.yaml" if file_format == "dsl" else "flowir_package.yaml")
+                for targetFolder in manifest:
+                    if manifest[targetFolder].rsplit(':', 1)[1] == 'link' and \
+                            os.path.normpath(targetFolder) in ("conf", package_file):
+                        raise experiment.model.errors.FlowIRManifestSyntaxException(
+                            f'Manifest target "{targetFolder}" is invalid because it is a link and the package '
+                            f'file is stored in {package_file} of the instance - use :copy instead')
+
                 if not os.path.exists(targetPath):
                     os.makedirs(targetPath)
 
@@ -615,10 +625,7 @@ class ExperimentPackage(StorageStructurePathResolver):
                     # VV: It's OK for the conf folder to already exist, it could have commonly used pipeline definitions
                     # in it which the flowir we're copying into the conf dir $imports
                     os.makedirs(conf_dir)
-                if file_format == "dsl":
-                    shutil.copyfile(path, os.path.join(conf_dir, "dsl.yaml"))
-                else:
-                    shutil.copyfile(path, os.path.join(conf_dir, "flowir_package.yaml"))
+                shutil.copyfile(path, os.path.join(targetPath, package_file))
             except OSError as e:
                 raise_with_traceback(experiment.model.errors.PackageCreateError(e, targetPath, path))
 
